@@ -159,6 +159,64 @@ impl<P: Producer> ParIter<P> {
         self.flatten()
     }
 
+    /// rayon's `fold_with`: one clone of the initial accumulator per piece.
+    pub fn fold_with<T: Clone, F>(self, init: T, fold_op: F) -> ParIter<VecP<T>>
+    where
+        F: Fn(T, P::Item) -> T,
+    {
+        self.eager("fold_with", |it| vec![it.fold(init.clone(), &fold_op)])
+    }
+
+    /// rayon's `try_fold` over `Result`: one accumulator per piece, a piece stops at its first error.
+    pub fn try_fold<T, E, ID, F>(self, identity: ID, fold_op: F) -> ParIter<VecP<Result<T, E>>>
+    where
+        ID: Fn() -> T,
+        F: Fn(T, P::Item) -> Result<T, E>,
+    {
+        self.eager("try_fold", |it| {
+            let mut acc = identity();
+            for x in it {
+                match fold_op(acc, x) {
+                    Ok(a) => acc = a,
+                    Err(e) => return vec![Err(e)],
+                }
+            }
+            vec![Ok(acc)]
+        })
+    }
+
+    pub fn step_by(self, step: usize) -> ParIter<VecP<P::Item>> {
+        assert!(step != 0);
+        // positions are global: materialise in order, then keep every step-th element
+        let all: Vec<P::Item> = Vec::from_pieces(run_pieces(self.0, "step_by", |piece| piece.into_seq().collect::<Vec<_>>()));
+        ParIter(VecP { v: all.into_iter().step_by(step).collect() })
+    }
+
+    pub fn partition<F>(self, pred: F) -> (Vec<P::Item>, Vec<P::Item>)
+    where
+        F: Fn(&P::Item) -> bool,
+    {
+        let all: Vec<P::Item> = Vec::from_pieces(run_pieces(self.0, "partition", |piece| piece.into_seq().collect::<Vec<_>>()));
+        all.into_iter().partition(|x| pred(x))
+    }
+
+    pub fn interleave<Z: IntoParallelIterator<Prod = Q>, Q: Producer<Item = P::Item>>(self, other: Z) -> ParIter<VecP<P::Item>> {
+        let a: Vec<P::Item> = Vec::from_pieces(run_pieces(self.0, "interleave.a", |piece| piece.into_seq().collect::<Vec<_>>()));
+        let b: Vec<P::Item> = Vec::from_pieces(run_pieces(other.into_par_iter().0, "interleave.b", |piece| piece.into_seq().collect::<Vec<_>>()));
+        let (mut ia, mut ib) = (a.into_iter(), b.into_iter());
+        let mut v = Vec::new();
+        loop {
+            match (ia.next(), ib.next()) {
+                (None, None) => break,
+                (x, y) => {
+                    v.extend(x);
+                    v.extend(y);
+                }
+            }
+        }
+        ParIter(VecP { v })
+    }
+
     /// rayon's `fold`: one accumulator per piece.
     pub fn fold<T, ID, F>(self, identity: ID, fold_op: F) -> ParIter<VecP<T>>
     where
@@ -934,6 +992,74 @@ impl<T> IntoParallelIterator for Option<T> {
     type Prod = VecP<T>;
     fn into_par_iter(self) -> ParIter<VecP<T>> {
         ParIter(VecP { v: self.into_iter().collect() })
+    }
+}
+
+impl<K, V, S> IntoParallelIterator for std::collections::HashMap<K, V, S> {
+    type Prod = VecP<(K, V)>;
+    fn into_par_iter(self) -> ParIter<VecP<(K, V)>> {
+        ParIter(VecP { v: self.into_iter().collect() })
+    }
+}
+
+impl<'a, K, V, S> IntoParallelIterator for &'a std::collections::HashMap<K, V, S> {
+    type Prod = VecP<(&'a K, &'a V)>;
+    fn into_par_iter(self) -> ParIter<VecP<(&'a K, &'a V)>> {
+        ParIter(VecP { v: self.iter().collect() })
+    }
+}
+
+impl<K, V> IntoParallelIterator for std::collections::BTreeMap<K, V> {
+    type Prod = VecP<(K, V)>;
+    fn into_par_iter(self) -> ParIter<VecP<(K, V)>> {
+        ParIter(VecP { v: self.into_iter().collect() })
+    }
+}
+
+impl<'a, K, V> IntoParallelIterator for &'a std::collections::BTreeMap<K, V> {
+    type Prod = VecP<(&'a K, &'a V)>;
+    fn into_par_iter(self) -> ParIter<VecP<(&'a K, &'a V)>> {
+        ParIter(VecP { v: self.iter().collect() })
+    }
+}
+
+impl<'a, K: 'a, V: 'a, S: 'a> IntoParallelRefIterator<'a> for std::collections::HashMap<K, V, S> {
+    type Prod = VecP<(&'a K, &'a V)>;
+    fn par_iter(&'a self) -> ParIter<VecP<(&'a K, &'a V)>> {
+        ParIter(VecP { v: self.iter().collect() })
+    }
+}
+
+impl<'a, K: 'a, V: 'a> IntoParallelRefIterator<'a> for std::collections::BTreeMap<K, V> {
+    type Prod = VecP<(&'a K, &'a V)>;
+    fn par_iter(&'a self) -> ParIter<VecP<(&'a K, &'a V)>> {
+        ParIter(VecP { v: self.iter().collect() })
+    }
+}
+
+impl<P, T, E> ParIter<P>
+where
+    P: Producer<Item = Result<T, E>>,
+{
+    /// rayon's `try_reduce` over `Result`: pieces fold left to right and stop at their first
+    /// error; the error of the leftmost failing piece is reported (a stable choice).
+    pub fn try_reduce<ID, OP>(self, identity: ID, op: OP) -> Result<T, E>
+    where
+        ID: Fn() -> T,
+        OP: Fn(T, T) -> Result<T, E>,
+    {
+        let parts = run_pieces(self.0, "try_reduce", |piece| {
+            let mut acc = identity();
+            for x in piece.into_seq() {
+                acc = op(acc, x?)?;
+            }
+            Ok::<T, E>(acc)
+        });
+        let mut acc = identity();
+        for p in parts {
+            acc = op(acc, p?)?;
+        }
+        Ok(acc)
     }
 }
 
